@@ -601,7 +601,10 @@ func (c *Ctx) applyOp(name string, m modeling.Mesh) opRun {
 }
 
 func (c *Ctx) startMesh() modeling.Mesh {
-	switch c.Rng.Intn(8) {
+	switch c.Rng.Intn(10) {
+	case 8, 9:
+		c.Note("start:cloud")
+		return c.genMesh(meshGen{topo: []modeling.Topology{modeling.PointTopology}, needPos: c.Rng.Intn(4) != 0, maxVerts: 20, materials: true})
 	case 0:
 		c.Note("start:sphere")
 		return primitives.UVSphere(1, 2+c.Rng.Intn(3), 3+c.Rng.Intn(3))
@@ -620,6 +623,10 @@ func (c *Ctx) startMesh() modeling.Mesh {
 
 // opsFor biases the choice towards operations the mesh's topology admits (rejections still occur)
 func (c *Ctx) opsFor(m modeling.Mesh, all []string) string {
+	if m.Topology() == modeling.PointTopology && c.Rng.Intn(2) == 0 {
+		// point clouds: the filter / crop family is only applicable here
+		return []string{"filter", "filter", "crop"}[c.Rng.Intn(3)]
+	}
 	for tries := 0; tries < 4; tries++ {
 		name := all[c.Rng.Intn(len(all))]
 		ok := true
